@@ -584,6 +584,35 @@ def main():
         status = 2
         log("UNDECIDED: zero obligations generated for %s" % prop)
 
+    # thorough tier, unchanged tree only: contract-sensitivity probe.  Up to four of the property's single-site breaking edits from
+    # tools/mutate.py are applied to scratch copies and the QUICK check is run on each; the outcome is recorded in the evidence
+    # (how many the contracts notice).  Informational: it never changes this run's exit status.
+    sensitivity = None
+    if tier == "thorough" and status == 0 and os.path.realpath(repo) == "/repo" and os.environ.get("VERIF_NO_SENSITIVITY") != "1":
+        try:
+            import mutate as _mut
+            picks = [m for m in _mut.M if m[1] == prop and m[5] == "break"][:4]
+            sensitivity = []
+            for (name, _p, fpath, old_t, new_t, _k) in picks:
+                scr = "/tmp/verif-sens-%d" % os.getpid()
+                shutil.rmtree(scr, ignore_errors=True)
+                subprocess.run("mkdir -p %s && rsync -a --exclude target --exclude .git /repo/ %s/" % (scr, scr), shell=True)
+                fp = os.path.join(scr, fpath)
+                txt = open(fp).read()
+                if old_t not in txt:
+                    sensitivity.append({"edit": name, "verdict": "pattern-not-found"})
+                    shutil.rmtree(scr, ignore_errors=True)
+                    continue
+                open(fp, "w").write(txt.replace(old_t, new_t, 1))
+                q = subprocess.run([os.path.join(VERIF, "check"), prop, "--repo", scr, "--tier", "quick"], capture_output=True, text=True,
+                                   env=dict(os.environ, VERIF_TIER="quick", VERIF_NO_SENSITIVITY="1"))
+                first = [l for l in (q.stdout + "\n" + q.stderr).splitlines() if l.startswith(("FAILED OBLIGATION", "UNDECIDED"))][:1]
+                sensitivity.append({"edit": name, "file": fpath, "verdict": {1: "reported", 2: "undecided", 0: "NOT NOTICED"}.get(q.returncode, "rc=%d" % q.returncode),
+                                    "first": (first[0][:200] if first else "")})
+                shutil.rmtree(scr, ignore_errors=True)
+        except Exception as e:  # never let the probe disturb the verdict
+            sensitivity = [{"error": str(e)[:200]}]
+
     trusted = sorted(set(t for r in results for t in r.get("trusted", [])))
     if kani_res:
         trusted += kani_res.get("trusted", [])
@@ -598,6 +627,7 @@ def main():
             "samples": samples,
             "rewrite_rules_fired": {r["unit"]: r.get("rules_fired", {}) for r in results},
             "vacuity": {r["unit"]: r.get("vacuity") for r in results},
+            "contract_sensitivity_probe": sensitivity,
             "vacuity_canaries": {r["unit"]: r.get("canaries") for r in results},
             "units": [{"unit": r["unit"], "status": r["status"], "verified_items": r.get("verified_items"), "wall_s": r["wall_s"], "smt_ms": r.get("smt_ms"), "extra_z3_seeds": r.get("seed_runs"), "unstable_not_reported": r.get("unstable") or [], "rlimit_fallback": r.get("rlimit_fallback") or []} for r in results],
             "slow_functions_over_5s": [f["name"] for f in fns if f.get("smt_ms", 0) and f["smt_ms"] > 5000],
